@@ -268,18 +268,60 @@ macro_rules! ops_for {
             "ceil" => format!("ok {}", hi(&<$T>::mk(a[0], a[1]).ceil())),
             "round" => format!("ok {}", hi(&<$T>::mk(a[0], a[1]).round())),
             // parser: args <string> (the oracle receives the intended numbers as further arguments)
-            "parse" => match <$T>::from_str(a[0]) {
+            "parse" => match <$T>::from_str(&a[0].replace("@", "")) {
                 Ok(v) => format!("ok {}", v.show()),
                 Err(e) => format!("err {:?}", e),
             },
-            "parse_radix" => match <$T>::from_str_radix(a[1], usz(a[0]) as u32) {
+            "parse_radix" => match <$T>::from_str_radix(&a[1].replace("@", ""), usz(a[0]) as u32) {
                 Ok(v) => format!("ok {}", v.show()),
                 Err(e) => format!("err {:?}", e),
             },
-            "parse_prefix" => match <$T>::from_str_with_radix_prefix(a[0]) {
+            "parse_prefix" => match <$T>::from_str_with_radix_prefix(&a[0].replace("@", "")) {
                 Ok((v, radix)) => format!("ok {} {:x}", v.show(), radix),
                 Err(e) => format!("err {:?}", e),
             },
+            // round 4: clone_from on a destination that already holds a value (also through Vec::clone_from and
+            // clone_from_slice, which call it element-wise): args dn dd sn sd
+            "clonefrom" => {
+                let src = <$T>::mk(a[2], a[3]);
+                let mut x = <$T>::mk(a[0], a[1]);
+                x.clone_from(&src);
+                let mut v = vec![<$T>::mk(a[0], a[1]), <$T>::mk(a[0], a[1])];
+                v.clone_from(&vec![src.clone(), src.clone()]);
+                let mut w = vec![<$T>::mk(a[0], a[1])];
+                w.clone_from_slice(&[src.clone()]);
+                let c = src.clone();
+                format!("ok {} {} {} {} {}", x.show(), v[0].show(), v[1].show(), w[0].show(), c.show())
+            }
+            // TryFrom<T> for IBig / UBig: args n d
+            "tryint" => {
+                let x = <$T>::mk(a[0], a[1]);
+                let i = match IBig::try_from(x.clone()) {
+                    Ok(v) => hi(&v),
+                    Err(e) => format!("err:{:?}", e),
+                };
+                let u = match UBig::try_from(x) {
+                    Ok(v) => hu(&v),
+                    Err(e) => format!("err:{:?}", e),
+                };
+                format!("ok {} {}", i, u)
+            }
+            // serde Deserialize from the struct form (postcard: the two integers as stored, possibly not reduced,
+            // possibly a zero denominator) and from the text form (serde_json): args n d text
+            "serde" => {
+                let (n, d) = (ibig(a[0]), ubig(a[1]));
+                let bytes = postcard::to_allocvec(&(n.clone(), d.clone())).expect("postcard");
+                let pc = match postcard::from_bytes::<$T>(&bytes) {
+                    Ok(v) => v.show(),
+                    Err(_) => "err -".to_string(),
+                };
+                let text = format!("\"{}\"", a[2]); // the decimal text "n/d", written by the generator
+                let js = match serde_json::from_str::<$T>(&text) {
+                    Ok(v) => v.show(),
+                    Err(_) => "err -".to_string(),
+                };
+                format!("ok {} {}", pc, js)
+            }
             _ => format!("unknown-op {}", name),
         }
     }};
@@ -369,9 +411,104 @@ fn hist(a: &[&str]) -> String {
     out
 }
 
+// round 4: histories with the in-place operators (value and reference right operand; a panicking `x /= 0` leaves
+// Default in x because the operand was taken out with core::mem::take), clone / clone_from into a slot that already
+// holds a value, integers on the LEFT (IBig and UBig, all four operators), UBig on the right, From<IBig>.
+macro_rules! hist4_step {
+    ($T:ty, $pool:expr, $op:expr, $i:expr, $arg:expr, $dst:expr, $alt:expr) => {{
+        let pool: &mut Vec<$T> = $pool;
+        let alt: bool = $alt;
+        let (i, dst): (usize, usize) = ($i, $dst);
+        match $op {
+            "adda" | "suba" | "mula" | "diva" | "rema" => {
+                let y = pool[usz($arg)].clone();
+                let x = &mut pool[i];
+                match ($op, alt) {
+                    ("adda", false) => *x += &y,
+                    ("adda", true) => *x += y,
+                    ("suba", false) => *x -= &y,
+                    ("suba", true) => *x -= y,
+                    ("mula", false) => *x *= &y,
+                    ("mula", true) => *x *= y,
+                    ("diva", false) => *x /= &y,
+                    ("diva", true) => *x /= y,
+                    ("rema", false) => *x %= &y,
+                    (_, _) => *x %= y,
+                }
+                i
+            }
+            "clone" => {
+                let c = pool[i].clone();
+                pool[dst] = c;
+                dst
+            }
+            "clonefrom" => {
+                let s = pool[i].clone();
+                pool[dst].clone_from(&s);
+                dst
+            }
+            o => {
+                let x = &pool[i];
+                let r: $T = match o {
+                    "laddi" => if alt { ibig($arg) + x.clone() } else { &ibig($arg) + x },
+                    "lsubi" => if alt { ibig($arg) - x } else { &ibig($arg) - x.clone() },
+                    "lmuli" => if alt { ibig($arg) * x.clone() } else { &ibig($arg) * x },
+                    "ldivi" => if alt { ibig($arg) / x } else { &ibig($arg) / x.clone() },
+                    "laddu" => if alt { ubig($arg) + x.clone() } else { &ubig($arg) + x },
+                    "lsubu" => if alt { ubig($arg) - x } else { &ubig($arg) - x.clone() },
+                    "lmulu" => if alt { ubig($arg) * x.clone() } else { &ubig($arg) * x },
+                    "ldivu" => if alt { ubig($arg) / x } else { &ubig($arg) / x.clone() },
+                    "addu" => if alt { x.clone() + ubig($arg) } else { x + &ubig($arg) },
+                    "subu" => if alt { x.clone() - &ubig($arg) } else { x - ubig($arg) },
+                    "mulu" => if alt { x.clone() * ubig($arg) } else { x * &ubig($arg) },
+                    "divu" => if alt { x.clone() / &ubig($arg) } else { x / ubig($arg) },
+                    "fromi" => <$T>::from(ibig($arg)),
+                    o3 => hist_step!($T, &*pool, o3, i, $arg, alt),
+                };
+                pool[dst] = r;
+                dst
+            }
+        }
+    }};
+}
+
+/// `hist4 k n1 d1 .. nk dk (op i arg dst)*` -> `ok (n d | panic:<class> -) (xn xd | panic:<class> -) ... | pool | xpool flag`
+/// (after each step the slot that was written - or, for a panicking in-place form, emptied - is reported)
+fn hist4(a: &[&str]) -> String {
+    let k = usz(a[0]);
+    let mut pr: Vec<RBig> = (0..k).map(|j| RBig::mk(a[1 + 2 * j], a[2 + 2 * j])).collect();
+    let mut px: Vec<Relaxed> = (0..k).map(|j| Relaxed::mk(a[1 + 2 * j], a[2 + 2 * j])).collect();
+    let steps = &a[1 + 2 * k..];
+    let mut out = String::from("ok");
+    for (t, s) in steps.chunks(4).enumerate() {
+        let (op, i, arg, dst) = (s[0], usz(s[1]), s[2], usz(s[3]));
+        let alt = t % 2 == 1;
+        match catch_unwind(AssertUnwindSafe(|| hist4_step!(RBig, &mut pr, op, i, arg, dst, alt))) {
+            Ok(w) => out.push_str(&format!(" {}", hq(&pr[w]))),
+            Err(e) => out.push_str(&format!(" panic:{} -", panic_class(e))),
+        }
+        match catch_unwind(AssertUnwindSafe(|| hist4_step!(Relaxed, &mut px, op, i, arg, dst, alt))) {
+            Ok(w) => out.push_str(&format!(" {}", hqr(&px[w]))),
+            Err(e) => out.push_str(&format!(" panic:{} -", panic_class(e))),
+        }
+    }
+    out.push_str(" |");
+    for j in 0..k {
+        out.push_str(&format!(" {} {}", hq(&pr[j]), hqr(&px[j])));
+    }
+    let mut agree = true;
+    for j in 0..k {
+        agree &= px[j].clone().canonicalize() == pr[j] && pr[j].clone().relax() == px[j] && pr[j].as_relaxed() == &px[j];
+        agree &= pr[j].is_int() == pr[j].denominator().is_one();
+    }
+    out.push_str(if agree { " 1" } else { " 0" });
+    out
+}
+
 fn run(op: &str, a: &[&str]) -> String {
     match op {
         "hist" => hist(a),
+        "hist4" => hist4(a),
         // RBig <-> Relaxed conversions
         "xcanon" => format!("ok {}", hq(&Relaxed::mk(a[0], a[1]).canonicalize())),
         "rrelax" => {
